@@ -24,7 +24,7 @@ import (
 // (used to add requires such as wholevalue(b) for RawJSON); an explicit
 // contract without it overrides the default; `flag nofrontend` opts out.
 
-var frontendProps = []string{"C01", "C02", "C03", "C09"}
+var frontendProps = []string{"C01", "C03", "C09"}
 
 func mustParse(src string) Expr {
 	e, err := parseExpr(src)
